@@ -416,7 +416,7 @@ def expr_history(seed, hid, with_unsafe=False, length=40):
             g.mutate(r)
         else:
             g.observe(r)
-        if rng.random() < 0.06:
+        if rng.random() < 0.12:
             k = rng.choice(["con", "gen", "cg"])
             if k == "con":
                 g.emit("con", r, rng.choice([0, 1]))
@@ -427,6 +427,8 @@ def expr_history(seed, hid, with_unsafe=False, length=40):
     for r in range(4):
         g.emit("iter", r)
     g.emit("sys", 0)
+    for k in rng.sample(range(6), 3):
+        g.emit("sysop", 0, k)
     return g.lines
 
 
